@@ -8,7 +8,8 @@ IBases == Both({
     G(<<4, 6, 5>>, <<One, R(5,4), R(1,2)>>, <<R(1,2), RI(-3), R(7,4)>>, QuatMat(<<2,1,0,0>>), TRUE)})
 AcArgs == {-1, 0, 1}
 Sizes(D)  == IF D = 2 THEN {<<5, 3>>, <<9, 8>>, <<7, 4>>} ELSE {<<5, 8, 4>>, <<3, 4, 6>>}
-Hs(D)     == IF D = 2 THEN {<<One, One>>, <<R(3,4), R(1,2)>>} ELSE {<<R(3,4), Two, R(1,2)>>}
+\* (the third 2-D spacing is a few percent off the spacing of the second base grid: the resampled image keeps its SHAPE but not its spacing)
+Hs(D)     == IF D = 2 THEN {<<One, One>>, <<R(3,4), R(1,2)>>, <<R(33,32), R(25,32)>>} ELSE {<<R(3,4), Two, R(1,2)>>}
 DimSets(D) == IF D = 2 THEN {<<>>, <<0>>, <<1>>} ELSE {<<>>, <<0, 2>>}
 Margins(D) == IF D = 2 THEN {<<<<1, 0>>, <<2, 1>>>>, <<<<-2, 1>>, <<0, -1>>>>, <<<<1, 1>>, <<1, 1>>>>}
               ELSE {<<<<1, 0, 1>>, <<2, 1, 0>>>>, <<<<-1, 2, 0>>, <<0, -2, 1>>>>}
